@@ -152,6 +152,50 @@ def user_keyword_at(loc, text):
     return span if _KEYWORD.match(span) else None
 
 
+def span_text(loc, text):
+    """The source text covered by an (already validated, in-file) location."""
+    lines = text.splitlines() + [""]
+    sl, sc, el, ec = loc.start.line, loc.start.column, loc.end.line, loc.end.column
+    if sl == el:
+        return lines[sl - 1][sc - 1:ec - 1]
+    return "\n".join([lines[sl - 1][sc - 1:]] + lines[sl:el - 1] + [lines[el - 1][:ec - 1]])
+
+
+_QUOTES_NAME = re.compile(r"(?:Duplicate name|Ambiguous name|No candidate for) '([^'\n]+)'$")
+
+
+def quoted_name_problem(group, m, f, text):
+    """Spec (docs: a message points at the construct it talks about): when a message quotes the
+    name of a source object, the span it reports in the file it names shows that name; a message
+    of an import-cycle group that names a module is located in that module.  None or (key, why)."""
+    first = group[0].message if isinstance(group[0].message, str) else ""
+    name = None
+    if first.startswith("Import dependency cycle\n"):
+        module = m.message.split("\n")[-1]
+        if module != f:
+            return ("message-about-module-located-in-other-file", "the message is about module %r but is located in %r" % (module, f))
+        return None
+    if first.startswith("Dependency cycle\n"):
+        name = m.message.split("\n")[-1]
+    else:
+        mm = _QUOTES_NAME.match(m.message)
+        if mm:
+            name = mm.group(1)
+    if not name or name.startswith("$"):
+        # `$size_in_bytes`, `$next`, ...: implicit objects of a structure, never written as a definition;
+        # their position (the structure) is only subject to the inside-the-file clauses
+        return None
+    shown = span_text(m.location, text)
+    ok = re.search(r"(?<![A-Za-z0-9_$])" + re.escape(name) + r"(?![A-Za-z0-9_])", shown)
+    if not ok and re.match(r"[A-Z][A-Za-z0-9]*$", name):
+        # language reference: the type of an inline `struct`/`enum`/`bits` field is named by
+        # CamelCasing the field's snake_case name (`foo_bar1` defines type `FooBar1`)
+        ok = name.lower() in shown.replace("_", "").lower()
+    if not ok:
+        return ("span-does-not-show-quoted-name", "the message quotes the name %r, the text at that span of %r is %.80r" % (name, f, shown))
+    return None
+
+
 def check_errors(errors, files, main, what):
     """Property statement applied to a list of error groups.  Returns list of
     (key, description)."""
@@ -206,6 +250,12 @@ def check_errors(errors, files, main, what):
                 nowhere = loc.start == (0, 0) and loc.end == (0, 0)
                 bad.append((("no-position(0:0):" if nowhere else "position-outside-file:") + msg_kind(g[0])[:48],
                             "%s: message %r at %s in %r: %s" % (what, head, loc, f, p)))
+                continue
+            # round 4: the text at the reported span of the NAMED file must be consistent with the
+            # name the message quotes (a right-looking position in the wrong file is caught here)
+            q = quoted_name_problem(g, m, f, sources[f])
+            if q:
+                bad.append((q[0] + ":" + msg_kind(g[0])[:48], "%s: message %r at %s in %r: %s" % (what, m.message[:80], loc, f, q[1])))
     return bad
 
 
@@ -292,6 +342,11 @@ def _run_case(case, files, main, res, want_model_lines):
         if ir is not None:
             res["bad"].append(("ir-and-errors", "both an IR and errors were returned"))
         res["bad"] += check_errors(errors, files, main, "front end")
+        try:
+            res["multi_file_groups"] = sum(1 for g in errors if len({m.source_file for m in g}) > 1)
+            res["messages"] = sum(len(g) for g in errors)
+        except Exception:  # noqa: BLE001
+            pass
         try:
             res["kinds"] = [msg_kind(g[0]) for g in errors if g]
         except Exception:  # noqa: BLE001
@@ -386,6 +441,11 @@ class Explorer:
         self.outcomes[res["outcome"]] = self.outcomes.get(res["outcome"], 0) + 1
         for kd in res["kinds"][:3]:
             self.kinds[kd] = self.kinds.get(kd, 0) + 1
+        x = chk.extra.setdefault("message_groups", {"messages_checked": 0, "groups_spanning_several_files": 0,
+                                                    "inputs_with_such_a_group": 0})
+        x["messages_checked"] += res.get("messages", 0)
+        x["groups_spanning_several_files"] += res.get("multi_file_groups", 0)
+        x["inputs_with_such_a_group"] += 1 if res.get("multi_file_groups") else 0
         sig = "%s|%s" % (res["outcome"], res["kinds"][0] if res["kinds"] else "")
         chk.nontrivial(sig)
         if res["outcome"] in ("errors", "ir", "ir/backend-errors"):
@@ -1069,6 +1129,12 @@ def exploration(chk, tier, with_model):
     first = load_corpus() + testdata_cases() + gen.boundary_cases()
     n = 1000 if tier == "quick" else 6000
     cases = first + [gen.pick(r) for _ in range(n)]
+    # round 4: multi-module source sets with cross-module cycles / multi-message groups; appended
+    # (own random stream) so that the inputs of the established streams stay what they were
+    rx = common.rng("C16-xmod")
+    xdet = gen.xmod_boundary_cases()
+    cases += xdet + [gen.gen_xmod(rx) for _ in range(120 if tier == "quick" else 1500)]
+    chk.extra["xmod_enumerated_cases"] = len(xdet)
     t0 = time.time()
     ex.run(cases, procs=4)
     chk.extra["exploration_s"] = round(time.time() - t0, 1)
